@@ -71,6 +71,9 @@ func famC13(g *Gen, o *Out, n int, thorough bool) {
 		if !thorough && len(arch) > 300 {
 			stride = len(arch) / 150
 		}
+		if thorough && len(arch)*len(arch) > 600000 {
+			stride = len(arch) * len(arch) / 600000 // every offset of small archives; a bounded script for big ones
+		}
 		for i := 0; i < len(arch); i += stride {
 			m := append([]byte{}, arch...)
 			switch g.pick(4) {
